@@ -25,7 +25,7 @@ EXHAUSTIVE_SUBDOMAINS = []
 ASSUMPTIONS = ["pulse samples carry the amplitude plus a small share of the noise; low samples carry noise only", "regime R2 (noise between 0.2 x and 0.316 x the weakest pulse, i.e. 10-13.5 dB SNR) was the recorded finding eof-threshold-below-noise until fix b07124f; it is now judged as strictly as R1",
                "R1 = noise peak below the demodulator's own end-of-frame threshold (0.2 x strongest pulse of the frame)"]
 REQUIRED = ["r1_buffers", "r2_buffers", "second_buffer", "second_buffer_short_tail", "min_gap_after_short", "min_gap_after_long", "df17", "df20", "df21", "df4", "df5", "df11", "offset_even", "offset_odd",
-            "corrupted_df17_rejected", "pure_noise", "multi_frame", "same_frame_twice_in_a_row", "sessions", "session_buffer_11_or_later"]
+            "corrupted_df17_rejected", "pure_noise", "multi_frame", "same_frame_twice_in_a_row", "sessions", "session_buffer_11_or_later", "big_busy_first_buffer"]
 
 
 def reader():
@@ -198,7 +198,7 @@ def m_session(ctx, case):
         ctx.hit("session_buffers")
         if bi >= 10:
             ctx.hit("session_buffer_11_or_later")
-    ctx.hit("sessions")
+    ctx.hit("big_busy_first_buffer" if case.get("big") else "sessions")
     ctx.nontrivial(("s", case["bseed"]))
 
 
@@ -234,6 +234,22 @@ def mksession(rng):
             tails.append(0)
         buffers.append(fr)
     return {"buffers": buffers, "leads": leads, "tails": tails, "P": P, "bseed": rng.getrandbits(40)}
+
+
+def mkbig(rng):
+    """one buffer of the size the real reader processes (hundreds of 100 us windows), busy from the first to the last sample
+    except for ONE or two short pauses, with a few weaker replies among the strong ones"""
+    n_fr = rng.choice((500, 850, 850))
+    fr = []
+    pauses = set(rng.sample(range(10, n_fr - 10), 1))
+    weak = set(rng.sample(range(5, n_fr - 5), rng.choice((2, 4, 8))))
+    for k in range(n_fr):
+        hx, n = rand_frame(rng, rng.choice((4, 5, 11)) if k not in weak or rng.random() < 0.5 else 17)
+        own = 2 * n
+        fr.append({"hex": hx, "amp": rng.uniform(0.3, 0.5) if k in weak else rng.choice((1.4, rng.uniform(1.2, 1.4))),
+                   "gap": (rng.randint(400, 620) if k in pauses else rng.choice((own, own + 1, own + 2, own + 8))), "valid": True})
+    fr[-1]["gap"] = rng.choice((0, 3, 60))
+    return {"buffers": [fr], "leads": [rng.choice((0, 1, 30))], "tails": [0], "P": rng.choice((0.02, 0.04)), "bseed": rng.getrandbits(40), "big": 1}
 
 
 MONITORS = {"buffer": m_buffer, "session": m_session}
@@ -326,3 +342,5 @@ def cases(ctx):
         yield "buffer", mkcase(rng, "noise", 0)
     for k in range(ctx.share(48 if quick else 800)):
         yield "session", mksession(rng)
+    for k in range(ctx.share(16 if quick else 160)):
+        yield "session", mkbig(rng)
